@@ -204,3 +204,18 @@ func (d *c09Binding) ApplyExtra(pool types.ConnectionPool, ev string) string {
 	d.down.Close(api.NoFlush, api.RemoteClose)
 	return "closed"
 }
+
+// ApplyExtraKind (c09.ExtraKinds): the downstream connection closes with the given close kind
+// (reset by the client: OnReadErrClose; a response write ran into the write deadline:
+// OnWriteTimeout; closed by the proxy: LocalClose; ...) or is told of something that is no close
+// (OnReadTimeout: idle read timeout of the read loop; OnShutdown: activeListener.OnShutdown tells
+// every connection of a listener that is being stopped gracefully) - then the lease must stay.
+func (d *c09Binding) ApplyExtraKind(pool types.ConnectionPool, ev string, kind api.ConnectionEvent) string {
+	switch kind {
+	case api.OnReadTimeout, api.OnShutdown:
+		d.down.OnConnectionEvent(kind)
+		return "delivered"
+	}
+	d.down.Close(api.NoFlush, kind)
+	return "closed"
+}
